@@ -8,6 +8,7 @@ import Driver.Cmd.Format
 import Driver.Cmd.OsLog
 import Driver.Cmd.Flags
 import Driver.Cmd.Trace
+import Driver.Cmd.Container
 /-
   Line-protocol driver: one operation per line on stdin, one canonical answer per line on
   stdout.  Byte strings and texts travel as hex.  Imports no Mathlib (so it links).
@@ -16,7 +17,7 @@ import Driver.Cmd.Trace
 open Driver
 
 def allCommands : List (String × Cmd) :=
-  Driver.Kevent.commands ++ Driver.Pairing.commands ++ Driver.Render.commands ++ Driver.Callstacks.commands ++ Driver.TraceCodes.commands ++ Driver.Filters.commands ++ Driver.Format.commands ++ Driver.OsLog.commands ++ Driver.Flags.commands ++ Driver.Trace.commands
+  Driver.Kevent.commands ++ Driver.Pairing.commands ++ Driver.Render.commands ++ Driver.Callstacks.commands ++ Driver.TraceCodes.commands ++ Driver.Filters.commands ++ Driver.Format.commands ++ Driver.OsLog.commands ++ Driver.Flags.commands ++ Driver.Trace.commands ++ Driver.Container.commands
 
 def dispatch (line : String) : String :=
   match (line.trimAscii.toString.splitOn " ").filter (· ≠ "") with
